@@ -5,3 +5,4 @@ pub mod c20;
 pub mod c08;
 pub mod c18;
 pub mod c19;
+pub mod reqs;
